@@ -865,7 +865,8 @@ class Interp:
                     r.lin = Lin.from_bits(r.bits)
                 return r
             # value may not fit: truncation / reinterpretation
-            self.event(st, "narrow", site=site, lo=v.lo, hi=v.hi, to=repr(t), src=repr(v.ty), deps=v.deps)
+            self.event(st, "narrow", site=site, lo=v.lo, hi=v.hi, to=repr(t), src=repr(v.ty), deps=v.deps, lin=v.lin,
+                       facts=tuple(st.pc.log), fn=st.top().fn["path"])
             bits = None
             if v.bits is not None and len(v.bits) >= t.bits and not t.signed:
                 bits = v.bits[: t.bits]
@@ -875,6 +876,17 @@ class Interp:
                     return r
             if v.is_const():
                 return IntVal.const(t, _wrap(t, v.lo))
+            if v.lin is not None and not t.signed and v.lo >= 0 and v.hi < 4 * (1 << t.bits):
+                # exact wrap: lazy choice over the wrap count k, each guarded by k*2^w <= value < (k+1)*2^w
+                m = 1 << t.bits
+                alts = []
+                for k in range(v.lo // m, v.hi // m + 1):
+                    lo, hi = max(v.lo, k * m) - k * m, min(v.hi, (k + 1) * m - 1) - k * m
+                    g1 = ("guard", {"op": "Ge", "a": {"lin": v.lin}, "b": {"const": k * m}, "deps": v.deps})
+                    g2 = ("guard", {"op": "Lt", "a": {"lin": v.lin}, "b": {"const": (k + 1) * m}, "deps": v.deps})
+                    from .values import Lin as _Lin
+                    alts.append(((g1, g2), IntVal(t, lo, hi, None, None, v.lin.add(_Lin(-k * m, {})), v.deps, tags=v.tags)))
+                return Choice(alts) if len(alts) > 1 else alts[0][1]
             return IntVal(t, None, None, None, bits, None, v.deps, tags=v.tags)
         if kind == "IntToFloat" and isinstance(v, IntVal):
             return FloatVal(tyj["bits"], const=float(v.lo) if v.is_const() else None, term=("int", v), deps=v.deps, tags=v.tags,
@@ -998,6 +1010,7 @@ class Interp:
                         continue
                     self.write_loc(s, cloc, g[0][1])
                 else:
+                    s.pc.apply_fact(("or", tuple(tuple(d) for d, _v in g)))
                     self.write_loc(s, cloc, Choice(g))
                 outs.append(s)
             return outs
@@ -1362,16 +1375,15 @@ class Interp:
         if ra is None or rb is None:
             return False
         na, nb = ra, rb
+        recorded = False
         if na is not a:
             self.replace_vid(st, a.vid, na)
             if a.bits is not None and all(e is not None for e in a.bits) and not a.is_const() and na.vals is not None and not a.ty.signed:
-                hi = len(a.bits)
-                while hi > 1 and a.bits[hi - 1] == ZERO:
-                    hi -= 1
                 sb = a.sym_bits()
                 if sb and len(sb) <= 12:
                     if not st.pc.add_vals(a.bits, na.vals):
                         return False
+                    recorded = True
         if nb is not b:
             self.replace_vid(st, b.vid, nb)
             if b.bits is not None and all(e is not None for e in b.bits) and not b.is_const() and nb.vals is not None and not b.ty.signed:
@@ -1379,7 +1391,8 @@ class Interp:
                 if sb and len(sb) <= 12:
                     if not st.pc.add_vals(b.bits, nb.vals):
                         return False
-        if not ((na is not a and na.vals is not None) or (nb is not b and nb.vals is not None)):
+                    recorded = True
+        if not recorded and not (a.is_const() and b.is_const()):
             # record an opaque guard for later tabulation
             g = {"op": op, "a": _descr(a), "b": _descr(b), "deps": a.deps | b.deps}
             st.pc.add_guard(g)
@@ -1790,6 +1803,17 @@ class Interp:
             key = (o.visible_fp(depth), o.top().block)
             self.write_loc(o, dest, rv)
             delta = tuple(o.pc.log[n0:])
+            try:
+                hash(key)
+            except TypeError:
+                def find(x, path=""):
+                    if isinstance(x, dict):
+                        raise Inconclusive("unhashable fingerprint at %s: %r" % (path, x))
+                    if isinstance(x, (tuple, list)):
+                        for i, y in enumerate(x):
+                            find(y, path + "/%d" % i)
+                find(key)
+                raise
             if key not in groups:
                 groups[key] = []
                 order.append(key)
